@@ -15,10 +15,20 @@ BOUND = 4.0     # virtual seconds from the kill to the end of the call: scan per
 
 def base_scenarios(rng, n):
     out = []
-    kinds = ['apply', 'map', 'imap', 'apply', 'imap_unordered', 'map_unordered']       # stratified: every run sweeps apply pools too
+    kinds = ['apply', 'map', 'imap', 'apply', 'imap_unordered', 'map_unordered', 'apply_after_map']       # stratified: every run sweeps apply pools too
     for b in range(n):
         pool = {'n_jobs': rng.choice([1, 2, 3]), 'start_method': 'fork'}
         kind = kinds[b % len(kinds)]
+        if kind == 'apply_after_map':
+            # a kept-alive pool whose workers were started by a map call and which is then used through apply_async: some workers
+            # are idle while the apply tasks run on others
+            pool['n_jobs'] = rng.choice([2, 3])
+            pool['keep_alive'] = True
+            k = rng.randint(1, pool['n_jobs'] - 1)
+            ops = [{'op': 'map', 'n': rng.randint(2, 5), 'chunk_size': 1, 'dur': {'kind': 'hash', 'salt': rng.randint(0, 99), 'unit': 0.01}},
+                   {'op': 'apply_batch', 'tasks': [{'idx': i} for i in range(k)], 'dur': {'kind': 'map', 'map': {}, 'default': 0.3}, 'get_timeout': 30}]
+            out.append({'seed': rng.randint(0, 10 ** 6), 'pool': pool, 'ops': ops, 'judge_op': 1, 'same_func': True})
+            continue
         if kind == 'apply':
             k = rng.randint(2, 6)
             op = {'op': 'apply_batch', 'tasks': [{'idx': i} for i in range(k)], 'dur': {'kind': 'map', 'map': {}, 'default': 0.02}, 'get_timeout': 30}
@@ -250,7 +260,7 @@ def run(chk):
     for sc, o in zip(corpus, par.run_all(corpus)):
         cls = judge(chk, sc, o)
         chk.count('corpus (minimised past failures, run first)', key=key_of(sc) + str(sc.get('inject')), nontrivial=True, sample={'scenario': sc, 'outcome': cls})
-    bases = base_scenarios(rng, 6 if chk.tier == 'quick' else 80)
+    bases = base_scenarios(rng, 7 if chk.tier == 'quick' else 84)
     phases = ['queued', 'pill', 'task', 'init', 'announced', 'resultsent']
     handover_model = dict(zip(phases, drv.run(['handover phase=%s' % p for p in phases])))
     chk.notes['handover_model'] = handover_model
